@@ -139,7 +139,7 @@ type SignConfig struct {
 	Entity   int
 	Groups   []uint32
 	Objects  [][]uint32
-	TimeMode int // 0 OptSignDeterministic, 1 OptSignWithTime only, 2 neither
+	TimeMode int // 0 OptSignWithTime then OptSignDeterministic, 1 OptSignWithTime only, 2 neither, 3 OptSignDeterministic only
 }
 
 func (c SignConfig) String() string {
@@ -182,7 +182,7 @@ func GenSignConfig(r *Rng, k *Keys, img []byte) SignConfig {
 			byGroup[d.GroupID()] = append(byGroup[d.GroupID()], d.ID)
 		}
 	}
-	c := SignConfig{TimeMode: r.Intn(2)}
+	c := SignConfig{TimeMode: []int{0, 1, 3}[r.Intn(3)]}
 	if bytes.Equal(si.H.ID[:], make([]byte, 16)) && si.H.Ctime == ZeroTime && si.H.Mtime == ZeroTime && r.Chance(1, 3) {
 		c.TimeMode = 2
 	}
